@@ -285,7 +285,7 @@ def streams(tier):
             # `drive_aliasin` uses wall-clock waits; under heavy machine load they can expire, so the quick tier keeps it small
             # (the same clauses are covered with exact quiescence by the stream broker-limits)
             (core.Stream("aliasin", "aliasin", gen_in, pred_in, nontrivial_in, keep_prefix=1, timeout=900), 300 if q else 100000),
-            c13wire.stream(tier), _backlog(tier), c13wire.stream_cfg(tier)]
+            c13wire.stream(tier), _backlog(tier), c13wire.stream_cfg(tier), c13wire.stream_pp(tier)]
 
 def _backlog(tier):
     # Maximum Packet Size across a session resume, oversize messages in a backlog (shared with C01)
